@@ -199,30 +199,34 @@ func evalSchema(g *Grid, a Assignment, verbose bool) (findings []caseFinding, br
 	srv := newServer(served, true)
 	comparedUser := 0
 	runSchemaQuery := func(v Variant, query string) {
-		resp, err := post(srv, query, nil)
+		raw, _ := postRaw(srv, query, nil)
 		res.evaluations++
-		if err != nil {
-			findings = append(findings, caseFinding{"enabled:" + v.Name + ":response-not-json", err.Error(), v.Name})
+		// one typed decoding pass over the (mostly built-in, ~25 kB) response
+		var resp struct {
+			Data *struct {
+				Schema *jSchema `json:"__schema"`
+			} `json:"data"`
+			Errors []gqlError `json:"errors"`
+		}
+		if err := json.Unmarshal(raw, &resp); err != nil {
+			findings = append(findings, caseFinding{"enabled:" + v.Name + ":response-not-json", fmt.Sprintf("%v: %.200s", err, raw), v.Name})
 			return
 		}
 		if len(resp.Errors) > 0 {
-			findings = append(findings, caseFinding{"enabled:" + v.Name + ":errors", fmt.Sprintf("introspection query %s returned errors: %.300s", v.Name, resp.Raw), v.Name})
+			findings = append(findings, caseFinding{"enabled:" + v.Name + ":errors", fmt.Sprintf("introspection query %s returned errors: %.300s", v.Name, raw), v.Name})
 			return
 		}
-		var data struct {
-			Schema json.RawMessage `json:"__schema"`
-		}
-		if err := json.Unmarshal(resp.Data, &data); err != nil || len(data.Schema) == 0 || string(data.Schema) == "null" {
-			findings = append(findings, caseFinding{"enabled:" + v.Name + ":no-schema", fmt.Sprintf("no __schema in data: %.200s", resp.Raw), v.Name})
+		if resp.Data == nil || resp.Data.Schema == nil {
+			findings = append(findings, caseFinding{"enabled:" + v.Name + ":no-schema", fmt.Sprintf("no __schema in data: %.200s", raw), v.Name})
 			return
 		}
-		got, problems := fromSchemaJSON(data.Schema, v)
+		got, problems := fromSchemaJSON(resp.Data.Schema, v)
 		add(v.Name, problems)
 		if got == nil {
 			return
 		}
 		if verbose {
-			fmt.Printf("--- variant %s: %d types, %d directives rebuilt from %d bytes\n", v.Name, len(got.Types), len(got.Directives), len(resp.Raw))
+			fmt.Printf("--- variant %s: %d types, %d directives rebuilt from %d bytes\n", v.Name, len(got.Types), len(got.Directives), len(raw))
 		}
 		diffs := compare(ref, got, v)
 		add(v.Name, diffs)
@@ -628,75 +632,92 @@ func runShapes(maxNodes, workers int, layout string, col *collector, o *Output) 
 	o.Bounds["shape_meta_aliases"] = metaAliases
 	o.Bounds["shape_type_name_forms"] = typeArgForms
 
-	type job struct {
-		idx int
-		sh  Shape
+	skeletons := shapeSkeletons(maxNodes)
+	o.ShapeSkeletons = len(skeletons)
+
+	// Every worker walks the whole decoration space (cheap) and renders + executes the shapes
+	// whose index falls into its residue class; the counters are per worker and merged below.
+	type tally struct {
+		total, valid, sentinelOn, keyAbsent, done int
+		stopped                                  bool
+		reaching                                 map[[16]byte]bool
+		samples                                  map[int]Shape
 	}
-	jobs := make(chan job, 1024)
+	tallies := make([]*tally, workers)
 	var wg sync.WaitGroup
-	var mu sync.Mutex
-	distinct := map[[16]byte]bool{}
 	for w := 0; w < workers; w++ {
+		t := &tally{reaching: map[[16]byte]bool{}, samples: map[int]Shape{}}
+		tallies[w] = t
 		wg.Add(1)
 		go func() {
 			defer wg.Done()
-			for j := range jobs {
-				out, broken := checkShape(j.sh, markerRef, srvOn, srvOff)
+			t.total = enumerateShapes(skeletons, dirAlphabet, func(idx int, render func() Shape) bool {
+				if idx%workers != w {
+					return true
+				}
+				if t.stopped || expired() {
+					t.stopped = true
+					return false
+				}
+				sh := render()
+				t.done++
+				if idx == 100 || idx == 5000 || idx == 200000 {
+					t.samples[idx] = sh
+				}
+				out, broken := checkShape(sh, markerRef, srvOn, srvOff)
 				if broken != "" {
 					col.brokenf("%s", broken)
-					continue
+					return true
 				}
-				mu.Lock()
 				if out.valid {
-					o.ShapesValid++
-					o.ShapeEvaluations += 2
+					t.valid++
 					if out.reaching {
 						var h [16]byte
-						s := sha256.Sum256([]byte(j.sh.Query))
+						s := sha256.Sum256([]byte(sh.Query))
 						copy(h[:], s[:16])
-						if !distinct[h] {
-							distinct[h] = true
-							o.ShapesReaching++
-						}
+						t.reaching[h] = true
 					}
 					if out.sentinelOn {
-						o.ShapesSentinelOn++
+						t.sentinelOn++
 					}
 					if out.keyAbsent {
-						o.ShapesKeyAbsent++
+						t.keyAbsent++
 					}
 				}
-				mu.Unlock()
 				for _, f := range out.findings {
-					col.report(1<<30+j.idx, f.sig, f.what, map[string]any{"mode": "shape", "layout": layout, "query": j.sh.Query, "variables": j.sh.Variables})
+					col.report(1<<30+idx, f.sig, f.what, map[string]any{"mode": "shape", "layout": layout, "query": sh.Query, "variables": sh.Variables})
 				}
-			}
+				return true
+			})
 		}()
 	}
-	idx := 0
-	stopped := false
-	var sampleShapes []Shape
-	o.ShapeSkeletons = enumerateShapes(maxNodes, dirAlphabet, func(sh Shape) bool {
-		if expired() {
-			stopped = true
-			return false
-		}
-		if idx == 100 || idx == 5000 || idx == 200000 {
-			sampleShapes = append(sampleShapes, sh)
-		}
-		jobs <- job{idx, sh}
-		idx++
-		return true
-	})
-	close(jobs)
 	wg.Wait()
-	o.ShapesGenerated = idx
+	distinct := map[[16]byte]bool{}
+	stopped := false
+	samples := map[int]Shape{}
+	for _, t := range tallies {
+		o.ShapesGenerated += t.done
+		o.ShapesValid += t.valid
+		o.ShapeEvaluations += 2 * t.valid
+		o.ShapesSentinelOn += t.sentinelOn
+		o.ShapesKeyAbsent += t.keyAbsent
+		stopped = stopped || t.stopped
+		for h := range t.reaching {
+			distinct[h] = true
+		}
+		for i, sh := range t.samples {
+			samples[i] = sh
+		}
+	}
+	o.ShapesReaching = len(distinct)
 	if stopped {
 		o.Exhaustive = false
-		o.Stopped += fmt.Sprintf(" shape enumeration stopped by the internal budget after %d shapes", idx)
+		o.Stopped += fmt.Sprintf(" shape enumeration stopped by the internal budget after %d shapes", o.ShapesGenerated)
 	}
-	for _, sh := range sampleShapes {
-		o.Samples = append(o.Samples, map[string]any{"kind": "disabled-mode query shape", "layout": layout, "query": sh.Query, "variables": sh.Variables, "meta_keys": sh.MetaKeys})
+	for _, i := range []int{100, 5000, 200000} {
+		if sh, ok := samples[i]; ok {
+			o.Samples = append(o.Samples, map[string]any{"kind": "disabled-mode query shape", "layout": layout, "query": sh.Query, "variables": sh.Variables, "meta_keys": sh.MetaKeys})
+		}
 	}
 }
 
@@ -754,8 +775,8 @@ func doReplay(g *Grid, file, layout string) int {
 		// rebuild the expectation from the query itself
 		sh := Shape{Query: rf.Replay.Query, Variables: rf.Replay.Variables, MetaKeys: map[string]string{}, Fillers: map[string]string{}}
 		var found *Shape
-		enumerateShapes(4, dirAlphabet, func(s Shape) bool {
-			if s.Query == sh.Query {
+		enumerateShapes(shapeSkeletons(4), dirAlphabet, func(_ int, render func() Shape) bool {
+			if s := render(); s.Query == sh.Query {
 				found = &s
 				return false
 			}
